@@ -50,10 +50,20 @@ def predDump (cfg : List Bool) (x : Bool) (dumpToks : List String) : Option Stri
     else none
   | _ => none
 
+/-- token segments between `|` separators -/
+def segs : List String → List (List String)
+  | [] => [[]]
+  | t :: r => match segs r with
+    | [] => [[t]]
+    | h :: tl => if t == "|" then [] :: h :: tl else (t :: h) :: tl
+
 /-- P_C13 on every line of implementation output: INIT and COOKIE-ECHO never leave with a zero checksum -/
 def wirePred (impl : List String) : Option String :=
   if impl.any (fun t => (t.splitOn "zero_INIT_[").length > 1 || (t.splitOn "zero_COOKIEECHO").length > 1) then
     some "[C13,C04] an INIT or COOKIE-ECHO packet was emitted with a zero checksum field"
+  -- P_C04 (timers): the state dumps on the line say `st=3` (established) together with a running T1 timer
+  else if (segs impl).any (fun seg => seg.contains "st=3" && (seg.contains "t1i=1" || seg.contains "t1c=1")) then
+    some "[C04] an endpoint is ESTABLISHED while a T1 handshake timer is still running (it will fail the connect when its retry budget runs out)"
   else none
 
 def orElse (a b : Option String) : Option String := match a with | some x => some x | none => b
